@@ -20,7 +20,7 @@ RULE = ("one case = one FASTA configuration (1..N records x header length x L x 
 LETTERS = "ACGTTGCAAGTC"
 
 
-def _concrete(recs, finalnl):
+def _concrete(recs, finalnl, blankend=False):
     names, seqs, text = [], [], ""
     for i, r in enumerate(recs):
         name = "r%d" % (i + 1)
@@ -33,6 +33,8 @@ def _concrete(recs, finalnl):
         seqs.append(seq)
     if not finalnl:
         text = text[:-1]
+    elif blankend:
+        text += "\n"
     return names, seqs, text
 
 
@@ -43,7 +45,7 @@ def check_vector(v):
     from bionumpy.datatypes import Interval
     from bionumpy.encodings.string_encodings import StringEncoding
     recs, finalnl = v["recs"], v["finalnl"]
-    names, seqs, text = _concrete(recs, finalnl)
+    names, seqs, text = _concrete(recs, finalnl, v.get("blankend", False))
     d = os.path.join(v["_dir"], "c17_%d_%d" % (os.getpid(), v["_id"]))
     os.makedirs(d, exist_ok=True)
     path = os.path.join(d, "g.fa")
@@ -51,7 +53,7 @@ def check_vector(v):
         f.write(text)
     assert len(text) == v["flen"]
     bad, n = [], 0
-    tags0 = {"finalnl": finalnl, "nrec": len(recs)}
+    tags0 = {"finalnl": finalnl, "nrec": len(recs), "blank_line_at_end": bool(v.get("blankend"))}
     multiline = any(r["L"] > r["W"] for r in recs)
     exp_index = [[names[i], row["length"], row["offset"], row["lenc"], row["lenb"]] for i, row in enumerate(v["index"])]
 
@@ -213,13 +215,17 @@ def run(ctx):
     quick = ctx.tier == "quick"
     vectors = []
     for fn in (True, False):
-        consts = {"MaxRecs": 2, "MaxL": 4 if quick else 6, "MaxW": 3 if quick else 4, "FinalNL": fn}
+        consts = {"MaxRecs": 2, "MaxL": 4 if quick else 6, "MaxW": 3 if quick else 4, "FinalNL": fn, "BlankEnd": False}
         invs = ["FetchCorrect" if fn else "FetchCorrectUnlessAtRaggedEnd", "OffsetsAgree", "Emit"]
         res = ctx.tlc("MC_C17", tag="MC_C17_%s" % ("nl" if fn else "nonl"), spec="Spec", constants=consts, invariants=invs, coverage=True)
         ctx.require_actions(res, "MC_C17", ["FetchAny", "WholeAny"])
         vectors += res.vectors
+    # the same files with an empty line after the last record
+    res = ctx.tlc("MC_C17", tag="MC_C17_blank", spec="Spec", constants={"MaxRecs": 2, "MaxL": 3 if quick else 5, "MaxW": 2 if quick else 3, "FinalNL": True, "BlankEnd": True},
+                  invariants=["FetchCorrect", "OffsetsAgree", "Emit"])
+    vectors += res.vectors
     if not quick:
-        res = ctx.tlc("MC_C17", tag="MC_C17_3recs", spec="Spec", constants={"MaxRecs": 3, "MaxL": 3, "MaxW": 2, "FinalNL": True},
+        res = ctx.tlc("MC_C17", tag="MC_C17_3recs", spec="Spec", constants={"MaxRecs": 3, "MaxL": 3, "MaxW": 2, "FinalNL": True, "BlankEnd": False},
                       invariants=["FetchCorrect", "OffsetsAgree", "Emit"])
         vectors += res.vectors
     for i, v in enumerate(vectors):
@@ -228,7 +234,7 @@ def run(ctx):
     ctx.sample({k: vectors[7][k] for k in ("recs", "finalnl", "index")})
     ctx.absorb(core.pmap(check_vector, vectors, chunk=10))
     # a file of several reader chunks (the index is built chunk by chunk): index by the arithmetic definition, TLC-checked above
-    big = ctx.tlc("MC_C17big", tag="MC_C17big", spec="BigSpec", constants={"MaxRecs": 1, "MaxL": 1, "MaxW": 1, "FinalNL": True}, invariants=["EmitBig"])
+    big = ctx.tlc("MC_C17big", tag="MC_C17big", spec="BigSpec", constants={"MaxRecs": 1, "MaxL": 1, "MaxW": 1, "FinalNL": True, "BlankEnd": False}, invariants=["EmitBig"])
     bv = dict(big.vectors[0], _dir=ctx.work)
     ctx.absorb([check_big(bv)])
     ctx.exhaustive = True
